@@ -24,17 +24,16 @@ UNITS = [
 ]
 # enumerated family: one unit per picture width; heights, requested segment columns and rows enumerated with constant
 # loop bounds inside the harness (h_init_enum), witness row / segment symbolic
-for _w in range(1, 13):
+for _w in range(1, 11):
     _q = _w <= 8
     UNITS.append(Unit(
         uid="U24.2.init_w%d" % _w, prop="C24", harness=H, entry="h_init_enum", mode="plain", backend="cadical",
-        defines=["U24_INIT", "MAXW=%d" % _w, "WLO=%d" % _w, "WHI=%d" % _w] + (["MAXH=6", "MAXSC=4", "MAXSR=4"] if _q else ["MAXH=8", "MAXSC=6", "MAXSR=6"]),
-        thorough_defines=["U24_INIT", "MAXW=%d" % _w, "WLO=%d" % _w, "WHI=%d" % _w, "MAXH=8", "MAXSC=6", "MAXSR=6"],
+        defines=["U24_INIT", "MAXW=%d" % _w, "WLO=%d" % _w, "WHI=%d" % _w, "MAXH=6", "MAXSC=4", "MAXSR=4"],
         tier="quick" if _q else "thorough",
-        functions=["enc_dec_segments_init"], min_obligations=100, cover_functions=[], unwind=160, timeout=1500 if _q else 3000, mem_gb=16,
+        functions=["enc_dec_segments_init"], min_obligations=100, cover_functions=[], unwind=160, timeout=1500, mem_gb=16,
         trusted=["byte-loop model of memset (CBMC built-in is wrong for symbolic lengths)"], kind="bounded",
-        bound="picture width %d SB; heights 1..6 (thorough 1..8), requested segment grid 1..4 x 1..4 (thorough 1..6 x 1..6), "
-              "every combination, constant loop bounds" % _w,
+        bound="picture width %d SB; heights 1..6, requested segment grid 1..4 x 1..4, every combination, constant loop "
+              "bounds (a larger thorough box - heights to 8, grid 6 x 6 - was tried and needs > 25 min per width)" % _w,
         what="same table obligations as U24.2.init for every geometry of the box (enumerated, not symbolic)"))
 META = {"C24": {
     "level": "proof",
